@@ -10,7 +10,7 @@
 
   Specification side (Spec/SmilesTokens.lean, no reference to the writer's loop):
   `specPre` (structural pre-order traversal), `labelToks` (running label assignment),
-  `specFrags` (token lists of the fragments), `render`, `specSmiles`.
+  `specFrags` (token lists of the fragments), `renderToks`, `specSmiles`.
 
   Theorems: `C01w_wgraph`, `C01w_writer_eq_spec`, `C01w_total`, `C01w_decoder_total`, `C01w_render`,
   `C01w_balanced`, `C01w_labels_paired`, `C01w_labels_legal_partial`, `C01w_label_overflow`,
@@ -38,7 +38,7 @@ theorem C01w_wgraph (h : decodeGraph T s compat attrib = .ok g) : WGraph g := by
   exact { lenA := c2, bonds := ha, nodup := hb, mirror := hc, noChainRing := he,
           rootsLt := f1, rootsSorted := f2,
           chainIn := fun i hi => by rw [← Mol.chainInDeg_eq]; exact f3 i hi,
-          nonarom := decodeGraph_nonarom h }
+          nonarom := decodeGraph_nonaromW h }
 
 /-- the two running examples: a ring with a branch; two fragments with nested branches and a ring
     request that only raises a bond order.  (tokens, SMILES, final ring log) -/
@@ -83,11 +83,11 @@ theorem C01w_decoder_total (h : decodeGraph T s compat false = .ok g) :
   simp [decoder, decoderFull, h, hm, bind, Except.bind, pure, Except.pure]
 
 /-- whatever `molToSmiles` returns is the `.`-join of the rendered fragments of the specification;
-    `render` concatenates the token texts (atom text, bond text, `(`, `)`, label as one digit or
+    `renderToks` concatenates the token texts (atom text, bond text, `(`, `)`, label as one digit or
     `%` + decimal number) -/
 theorem C01w_render (hg : WGraph g) {out : Str} {maps : List AttributionMap}
     (h : molToSmiles g = .ok (out, maps)) :
-    out = joinWith ['.'] ((specFrags g).map render) ∧ (specFrags g).length = g.roots.length := by
+    out = joinWith ['.'] ((specFrags g).map renderToks) ∧ (specFrags g).length = g.roots.length := by
   obtain ⟨maps', h'⟩ := C01w_writer_eq_spec hg
   rw [h] at h'
   cases h'
